@@ -396,7 +396,11 @@ def execute(ctx, plan):
         play["end_seen"] = False
     on_event("ball_ending", h_ball_ending)
     note("slam_tilt", "slam_tilt")
-    note("tilt_clear")
+
+    def h_tilt_clear(**kwargs):
+        ctx.log("ev", "tilt_clear", t=loop.time())
+        play["tilt"] = False       # a new tilt in the same instant (game.tilted True again) is a new tilt
+    on_event("tilt_clear", h_tilt_clear)
     note("ball_search_started", "ball_search_started")
     note("ball_search_stopped")
     note("service_mode_exited")
